@@ -15,8 +15,8 @@ SPEC = {
     "level": "exploration",
     "design_ref": "DESIGN.md section 5, C03",
     "rule": ("cases = (shape of W-DAG) x (every positive flow that is a superposition of <=R source-sink paths with weights 1..W); inside: "
-             "weight_type in {int,float} x option sets {default, greedy off, min-gen-set bound (+partition constraints), guessed weights, "
-             "lowerbound_k=1, subgraph scanning (thorough; window shrunk)}, every single ignored arc (3 value treatments), every "
+             "weight_type in {int,float} x option sets {default, greedy off, safe paths as subpath constraints (greedy off), min-gen-set bound (+partition constraints), guessed weights, "
+             "lowerbound_k=1, subgraph scanning with the window shrunk to 3 and 2 nodes (quick: every third flow of the 5-node shapes)}, every single ignored arc (3 value treatments), every "
              "contiguous 2-3 arc sub-path and non-contiguous arc pair as a constraint, node-weighted twins; non-trivial = distinct "
              "(shape, flow, variant) solved with >= 2 paths and compared with the brute-force minimum"),
     "assumptions": ["weights are non-negative; a path chosen only to satisfy a constraint may carry weight 0",
@@ -26,6 +26,7 @@ SPEC = {
 OPTION_SETS = [
     ("default", {}),
     ("greedy_off", {"optimize_with_greedy": False}),
+    ("safety_cons", {"optimize_with_safety_as_subpath_constraints": True, "optimize_with_greedy": False}),
     ("mingenset", {"use_min_gen_set_lowerbound": True}),
     ("mingenset_part", {"use_min_gen_set_lowerbound": True, "use_min_gen_set_lowerbound_partition_constraints": True,
                         "optimize_with_greedy": False}),
@@ -61,7 +62,7 @@ def cases(tier, seed):
         for fv in sorted(flows):
             heavy = (n <= 4) or (sum(fv) % 3 == 0)
             yield {"nodes": names, "arcs": [[u, v, w] for (u, v), w in zip(arcs, fv)], "full": bool(heavy),
-                   "scan": (not q) and n == 5}
+                   "scan": n == 5 and ((not q) or bool(heavy))}
 
 
 def _solve(case, G, kw):
@@ -119,7 +120,7 @@ def run(case):
     base_opt = {}
     for wt in ("int", "float"):
         base_opt[wt], _ = O.min_decomp(cols_for(E), fvec, wt)
-    opts = OPTION_SETS if case["full"] else OPTION_SETS[:2]
+    opts = OPTION_SETS if case["full"] else OPTION_SETS[:3]
     for oname, oo in opts:
         for wt in ("int", "float"):
             obs = _solve(case, G, {"weight_type": wt, "optimization_options": dict(oo)})
